@@ -430,4 +430,577 @@ theorem cp2k_edit_idempotent_partial (u : Upd) (st st1 : St) (i : Nat)
           subst hnd
           simp [updateNode, href, hi, hr', h2, hs]
 
+
+/-! ### Theorem 2b: an update of an ABSENT target only adds nodes -/
+
+theorem join_append_singleton (sep : Str) (xs : List Str) (t : Str) (h : xs ≠ []) :
+    join sep (xs ++ [t]) = join sep xs ++ sep ++ t := by
+  induction xs with
+  | nil => exact absurd rfl h
+  | cons a r ih =>
+    cases r with
+    | nil => simp [join]
+    | cons b r' =>
+      have := ih (by simp)
+      simp only [List.cons_append] at this ⊢
+      simp only [join, this, List.append_assoc]
+
+/-- every key of `node_ref` points into the arena -/
+def RefOk (st : St) : Prop := ∀ k v, dget k st.ref = some v → v < st.arena.length
+
+/-- `st'` extends `st`: nothing that existed changed its title / settings / data / parent / level, children
+    lists and the root list only grew at the end, every key keeps its node -/
+structure Ext (st st' : St) : Prop where
+  len : st.arena.length ≤ st'.arena.length
+  nodes : ∀ (j : Nat) (a : Node), st.arena[j]? = some a → ∃ b : Node, st'.arena[j]? = some b ∧ b.title = a.title ∧
+    b.settings = a.settings ∧ b.data = a.data ∧ b.parent = a.parent ∧ b.level = a.level ∧ a.children <+: b.children
+  roots : st.roots <+: st'.roots
+  ref : ∀ k v, dget k st.ref = some v → dget k st'.ref = some v
+
+theorem Ext.refl (st : St) : Ext st st :=
+  ⟨Nat.le_refl _, fun _ a h => ⟨a, h, rfl, rfl, rfl, rfl, rfl, List.prefix_refl _⟩, List.prefix_refl _, fun _ _ h => h⟩
+
+theorem Ext.trans {a b c : St} (h1 : Ext a b) (h2 : Ext b c) : Ext a c := by
+  refine ⟨Nat.le_trans h1.len h2.len, ?_, List.IsPrefix.trans h1.roots h2.roots, fun k v h => h2.ref k v (h1.ref k v h)⟩
+  intro j x hx
+  obtain ⟨y, hy, e1, e2, e3, e4, e5, e6⟩ := h1.nodes j x hx
+  obtain ⟨z, hz, f1, f2, f3, f4, f5, f6⟩ := h2.nodes j y hy
+  exact ⟨z, hz, f1.trans e1, f2.trans e2, f3.trans e3, f4.trans e4, f5.trans e5, List.IsPrefix.trans e6 f6⟩
+
+/-- appending a new root node under a fresh key -/
+theorem ext_root (st : St) (nn : Node) (key : Str) (habs : dget key st.ref = none) :
+    Ext st { arena := st.arena ++ [nn], roots := st.roots ++ [st.arena.length], ref := dset key st.arena.length st.ref } := by
+  refine ⟨by simp, ?_, List.prefix_append _ _, ?_⟩
+  · intro j a h
+    have hj := getElem?_lt_of_some _ _ _ h
+    exact ⟨a, by simp [List.getElem?_append_left hj, h], rfl, rfl, rfl, rfl, rfl, List.prefix_refl _⟩
+  · intro k v h
+    rw [dget_dset]
+    by_cases e : key = k
+    · subst e; rw [habs] at h; cases h
+    · simp [e, h]
+
+/-- appending a new child of `pi` under a fresh key -/
+theorem ext_child (st : St) (pi : Nat) (pn nn : Node) (key : Str) (hp : st.arena[pi]? = some pn)
+    (habs : dget key st.ref = none) :
+    Ext st { arena := (st.arena.set pi { pn with children := pn.children ++ [st.arena.length] }) ++ [nn],
+             roots := st.roots, ref := dset key st.arena.length st.ref } := by
+  refine ⟨by simp, ?_, List.prefix_refl _, ?_⟩
+  · intro j a h
+    have hj := getElem?_lt_of_some _ _ _ h
+    have hj' : j < (st.arena.set pi { pn with children := pn.children ++ [st.arena.length] }).length := by simpa using hj
+    by_cases e : pi = j
+    · subst e
+      rw [hp] at h; injection h with h; subst h
+      refine ⟨{ pn with children := pn.children ++ [st.arena.length] }, ?_, rfl, rfl, rfl, rfl, rfl, List.prefix_append _ _⟩
+      simp [List.getElem?_append_left hj', hj]
+    · refine ⟨a, ?_, rfl, rfl, rfl, rfl, rfl, List.prefix_refl _⟩
+      simp [List.getElem?_append_left hj', List.getElem?_set, e, h]
+  · intro k v h
+    rw [dget_dset]
+    by_cases e : key = k
+    · subst e; rw [habs] at h; cases h
+    · simp [e, h]
+
+theorem refOk_dset (st : St) (arena' : List Node) (roots' : List Nat) (key : Str)
+    (hwf : RefOk st) (hlen : arena'.length = st.arena.length + 1) :
+    RefOk { arena := arena', roots := roots', ref := dset key st.arena.length st.ref } := by
+  intro k v h
+  simp only at h ⊢
+  rw [dget_dset] at h
+  by_cases e : key = k
+  · simp [e] at h; omega
+  · simp only [e, if_false] at h
+    have := hwf k v h
+    omega
+
+/-- `_add_node` never fails on a well-formed state whose `node_ref` lacks the target; it only extends the
+    state, and the last arena entry is the requested node, registered under the target key. -/
+theorem addNode_spec : ∀ (segs : List Str) (s d : List Str) (st : St), segs ≠ [] → RefOk st →
+    dget (join arrow segs.reverse) st.ref = none →
+    ∃ st', addNode segs s d st = .ok st' ∧ RefOk st' ∧ Ext st st' ∧ st.arena.length < st'.arena.length ∧
+      (∀ k, (join arrow segs.reverse).length < k.length → dget k st'.ref = dget k st.ref) ∧
+      ∃ nn, st'.arena[st'.arena.length - 1]? = some nn ∧
+        dget (join arrow segs.reverse) st'.ref = some (st'.arena.length - 1) ∧
+        segs.head? = some nn.title ∧ nn.settings = s ∧ nn.data = d ∧ nn.children = [] := by
+  intro segs
+  induction segs with
+  | nil => intro s d st h; exact absurd rfl h
+  | cons t rest ih =>
+    intro s d st _ hwf habs
+    cases rest with
+    | nil =>
+      simp only [List.reverse_cons, List.reverse_nil, List.nil_append, join] at habs ⊢
+      refine ⟨_, rfl, refOk_dset st _ _ t hwf (by simp), ext_root st _ t habs, by simp, ?_, ?_⟩
+      · intro k hk
+        rw [dget_dset]
+        have : ¬ t = k := by intro e; subst e; omega
+        simp [this]
+      · refine ⟨newNode t none s d 0, by simp, ?_, rfl, rfl, rfl, rfl⟩
+        simp [dget_dset]
+    | cons p ps =>
+      have hjoin : join arrow (t :: p :: ps).reverse = join arrow (p :: ps).reverse ++ arrow ++ t := by
+        have : (t :: p :: ps).reverse = (p :: ps).reverse ++ [t] := by simp
+        rw [this]
+        exact join_append_singleton arrow _ t (by simp)
+      have hlen : (join arrow (p :: ps).reverse).length < (join arrow (t :: p :: ps).reverse).length := by
+        rw [hjoin]; simp [arrow]
+      -- the state after the (possible) creation of the parent
+      have hst1 : ∃ st1 pi, (if (dget (join arrow (p :: ps).reverse) st.ref).isNone then addNode (p :: ps) [] [] st else .ok st) = .ok st1 ∧
+          RefOk st1 ∧ Ext st st1 ∧ dget (join arrow (p :: ps).reverse) st1.ref = some pi ∧
+          dget (join arrow (t :: p :: ps).reverse) st1.ref = none ∧
+          (∀ k, (join arrow (t :: p :: ps).reverse).length < k.length → dget k st1.ref = dget k st.ref) := by
+        cases hpar : dget (join arrow (p :: ps).reverse) st.ref with
+        | none =>
+          obtain ⟨st1, h1, hwf1, hext1, _, hkeys1, nn, _, hnn, _⟩ := ih [] [] st (by simp) hwf hpar
+          refine ⟨st1, st1.arena.length - 1, by simpa using h1, hwf1, hext1, hnn, ?_, ?_⟩
+          · rw [hkeys1 _ hlen]; exact habs
+          · intro k hk; exact hkeys1 k (Nat.lt_trans hlen hk)
+        | some pi =>
+          exact ⟨st, pi, by simp, hwf, Ext.refl st, hpar, habs, fun _ _ => rfl⟩
+      obtain ⟨st1, pi, h1, hwf1, hext1, hpar1, habs1, hkeys1⟩ := hst1
+      have hpi := hwf1 _ _ hpar1
+      obtain ⟨pn, hpn⟩ : ∃ pn, st1.arena[pi]? = some pn := ⟨st1.arena[pi], by simp [hpi]⟩
+      refine ⟨_, ?_, ?_, Ext.trans hext1 (ext_child st1 pi pn (newNode t (some pi) s d (pn.level + 1)) _ hpn habs1), ?_, ?_, ?_⟩
+      · simp only [addNode, h1, hpar1, hpn]
+      · exact refOk_dset st1 _ _ _ hwf1 (by simp)
+      · have := hext1.len
+        simp; omega
+      · intro k hk
+        simp only
+        rw [dget_dset]
+        have : ¬ join arrow (t :: p :: ps).reverse = k := by intro e; subst e; omega
+        simp only [this, if_false]
+        exact hkeys1 k hk
+      · refine ⟨newNode t (some pi) s d (pn.level + 1), by simp, ?_, rfl, rfl, rfl, rfl⟩
+        simp [dget_dset]
+
+
+theorem join_cons_ne_nil (sep a : Str) (rest : List Str) (h : rest ≠ []) :
+    join sep (a :: rest) = a ++ sep ++ join sep rest := by
+  cases rest with
+  | nil => exact absurd rfl h
+  | cons b r => simp [join]
+
+theorem splitArrowGo_ne_nil (s acc : Str) (dash : Bool) : splitArrowGo s acc dash ≠ [] := by
+  induction s generalizing acc dash with
+  | nil => simp [splitArrowGo]
+  | cons c t ih =>
+    unfold splitArrowGo
+    split
+    · split
+      · simp
+      · split <;> exact ih _ _
+    · split <;> exact ih _ _
+
+/-- `"->".join(s.split("->")) == s` -/
+theorem join_splitArrowGo (s acc : Str) (dash : Bool) :
+    join arrow (splitArrowGo s acc dash) = acc.reverse ++ (if dash then ['-'] else []) ++ s := by
+  induction s generalizing acc dash with
+  | nil => cases dash <;> simp [splitArrowGo, join]
+  | cons c t ih =>
+    unfold splitArrowGo
+    cases dash with
+    | true =>
+      simp only [if_true]
+      by_cases h1 : c = '>'
+      · subst h1
+        simp only [if_true]
+        rw [join_cons_ne_nil _ _ _ (splitArrowGo_ne_nil _ _ _), ih]
+        simp [arrow]
+      · by_cases h2 : c = '-'
+        · subst h2
+          simp only [h1, if_false, if_true]
+          rw [ih]; simp
+        · simp only [h1, h2, if_false]
+          rw [ih]; simp
+    | false =>
+      simp only [Bool.false_eq_true, if_false]
+      by_cases h2 : c = '-'
+      · subst h2
+        simp only [if_true]
+        rw [ih]; simp
+      · simp only [h2, if_false]
+        rw [ih]; simp
+
+theorem join_splitArrow (s : Str) : join arrow (splitArrow s) = s := by
+  simp [splitArrow, join_splitArrowGo]
+
+/-- Theorem 2b.  An update whose target is not a key of `node_ref` never fails on a well-formed state;
+    the new state extends the old one (`Ext`: no existing node's title / settings / data / parent / level
+    changes, children lists and roots only grow, keys keep their nodes), at least one node is added, and the
+    last node is the requested one: registered under the target, titled with the last segment, carrying
+    the requested settings — and, as data, the KEYS of the requested dict only (`list(data)`). -/
+theorem cp2k_edit_exact_absent (u : Upd) (st : St) (hwf : RefOk st) (habs : dget u.target st.ref = none) :
+    ∃ st', updateNode u st = .ok st' ∧ RefOk st' ∧ Ext st st' ∧ st.arena.length < st'.arena.length ∧
+      ∃ nn, st'.arena[st'.arena.length - 1]? = some nn ∧ dget u.target st'.ref = some (st'.arena.length - 1) ∧
+        (splitArrow u.target).getLast? = some nn.title ∧ nn.settings = u.settings ∧
+        nn.data = u.data.map (·.1) ∧ nn.children = [] := by
+  have hne : (splitArrow u.target).reverse ≠ [] := by
+    simpa [splitArrow] using splitArrowGo_ne_nil u.target [] false
+  have hkey : join arrow (splitArrow u.target).reverse.reverse = u.target := by
+    rw [List.reverse_reverse, join_splitArrow]
+  obtain ⟨st', h1, hwf', hext, hlt, _, nn, hnn, hget, hhead, hs, hd, hc⟩ :=
+    addNode_spec (splitArrow u.target).reverse u.settings (u.data.map (·.1)) st hne hwf (by rw [hkey]; exact habs)
+  refine ⟨st', by simp [updateNode, habs, h1], hwf', hext, hlt, nn, hnn, by rw [hkey] at hget; exact hget, ?_, hs, hd, hc⟩
+  rw [← hhead, List.head?_reverse]
+
+
+/-! ### removal -/
+
+theorem dpop_absent {α : Type} (k : Str) (r : List (Str × α)) (h : dget k r = none) : dpop k r = r := by
+  induction r with
+  | nil => rfl
+  | cons kv t ih =>
+    obtain ⟨k2, v2⟩ := kv
+    by_cases h2 : k2 = k
+    · simp [dget, h2] at h
+    · simp only [dget, h2, if_false] at h
+      simp [dpop, h2, ih h]
+
+theorem dget_dpop_self {α : Type} (k : Str) (r : List (Str × α)) (hn : (r.map (·.1)).Nodup) :
+    dget k (dpop k r) = none := by
+  induction r with
+  | nil => rfl
+  | cons kv t ih =>
+    obtain ⟨k2, v2⟩ := kv
+    simp only [List.map_cons, List.nodup_cons] at hn
+    by_cases h2 : k2 = k
+    · subst h2
+      simp only [dpop, if_true]
+      cases hd : dget k2 t with
+      | none => rfl
+      | some v =>
+        exfalso
+        have : k2 ∈ t.map (·.1) := by
+          clear ih hn
+          induction t with
+          | nil => simp [dget] at hd
+          | cons kv' t' ih' =>
+            obtain ⟨k3, v3⟩ := kv'
+            by_cases h3 : k3 = k2
+            · simp [h3]
+            · simp only [dget, h3, if_false] at hd
+              simp [ih' hd]
+        exact hn.1 this
+    · simp [dpop, dget, h2, ih hn.2]
+
+/-- `remove_node` drops exactly ONE key of `node_ref` — the target's own.  The keys of the removed
+    section's descendants stay (the code's final loop pops node objects, not keys). -/
+theorem removeNode_ref (target : Str) (st st' : St) (h : removeNode target st = .ok st') :
+    st'.ref = dpop target st.ref := by
+  unfold removeNode at h
+  cases hd : dget target st.ref with
+  | none =>
+    simp only [hd] at h
+    injection h with h; subst h
+    exact (dpop_absent _ _ hd).symm
+  | some i =>
+    simp only [hd] at h
+    cases hn : st.arena[i]? with
+    | none => simp [hn] at h
+    | some n =>
+      simp only [hn] at h
+      cases hp : n.parent with
+      | none =>
+        simp only [hp] at h
+        split at h
+        · injection h with h; subst h; rfl
+        · cases h
+      | some p =>
+        simp only [hp] at h
+        cases hpn : st.arena[p]? with
+        | none => simp [hpn] at h
+        | some pn =>
+          simp only [hpn] at h
+          split at h
+          · injection h with h; subst h; rfl
+          · cases h
+
+/-- removal is idempotent (on a `node_ref` with distinct keys, as every Python dict has) -/
+theorem cp2k_remove_idempotent (target : Str) (st st' : St) (hn : (st.ref.map (·.1)).Nodup)
+    (h : removeNode target st = .ok st') : removeNode target st' = .ok st' := by
+  have hr := removeNode_ref target st st' h
+  have : dget target st'.ref = none := by rw [hr]; exact dget_dpop_self target st.ref hn
+  simp [removeNode, this]
+
+/-! ### Theorem 4: the duplicate-title disambiguation of `set_parents` -/
+
+theorem dget_dset_ne {α : Type} (k k' : Str) (v : α) (r : List (Str × α)) (h : k' ≠ k) :
+    dget k (dset k' v r) = dget k r := by rw [dget_dset, if_neg h]
+
+theorem dget_dset_self {α : Type} (k : Str) (v : α) (r : List (Str × α)) :
+    dget k (dset k v r) = some v := by rw [dget_dset, if_pos rfl]
+
+theorem suffixed_ne (P x : Str) : P ++ arrow ++ x ≠ P := by
+  intro e
+  have := congrArg List.length e
+  simp [arrow] at this
+
+theorem suffixed_inj (P x y : Str) (h : x ≠ y) : P ++ arrow ++ x ≠ P ++ arrow ++ y := by
+  intro e
+  exact h (List.append_cancel_left e)
+
+theorem register_fresh (arena : List Node) (ref : List (Str × Nat)) (a : Nat)
+    (habs : dget (pathKey arena a) ref = none) : register arena ref a = dset (pathKey arena a) a ref := by
+  simp [register, habs]
+
+theorem register_second (arena : List Node) (ref : List (Str × Nat)) (a b : Nat)
+    (hp : pathKey arena b = pathKey arena a) (habs : dget (pathKey arena a) ref = none) :
+    register arena (dset (pathKey arena a) a ref) b =
+      dset (pathKey arena a ++ arrow ++ settingsKey arena b) b
+        (dset (pathKey arena a ++ arrow ++ settingsKey arena a) a ref) := by
+  simp only [register, hp, dget_dset_self, dpop_dset_absent _ _ _ habs]
+
+/-- Two nodes with the same title path and different settings: both end up under their suffixed key. -/
+theorem register_pair (arena : List Node) (ref : List (Str × Nat)) (a b : Nat)
+    (hp : pathKey arena b = pathKey arena a) (habs : dget (pathKey arena a) ref = none)
+    (hs : settingsKey arena a ≠ settingsKey arena b) :
+    dget (pathKey arena a ++ arrow ++ settingsKey arena a) (register arena (register arena ref a) b) = some a ∧
+    dget (pathKey arena a ++ arrow ++ settingsKey arena b) (register arena (register arena ref a) b) = some b ∧
+    dget (pathKey arena a) (register arena (register arena ref a) b) = none := by
+  rw [register_fresh arena ref a habs, register_second arena ref a b hp habs]
+  refine ⟨?_, ?_, ?_⟩
+  · rw [dget_dset_ne _ _ _ _ (suffixed_inj _ _ _ (Ne.symm hs)), dget_dset_self]
+  · rw [dget_dset_self]
+  · rw [dget_dset_ne _ _ _ _ (suffixed_ne _ _), dget_dset_ne _ _ _ _ (suffixed_ne _ _), habs]
+
+/-- The defect, for ANY arena: a THIRD node with the same title path is registered under the bare path again,
+    and its own suffixed key does not exist — an update addressed to `path->settings` of that node does not
+    find it (and `update_node` then creates a new child section instead). -/
+theorem register_third_bare (arena : List Node) (ref : List (Str × Nat)) (a b c : Nat)
+    (hpb : pathKey arena b = pathKey arena a) (hpc : pathKey arena c = pathKey arena a)
+    (habs : dget (pathKey arena a) ref = none)
+    (habs3 : dget (pathKey arena a ++ arrow ++ settingsKey arena c) ref = none)
+    (hca : settingsKey arena c ≠ settingsKey arena a) (hcb : settingsKey arena c ≠ settingsKey arena b) :
+    dget (pathKey arena a) (register arena (register arena (register arena ref a) b) c) = some c ∧
+    dget (pathKey arena a ++ arrow ++ settingsKey arena c)
+      (register arena (register arena (register arena ref a) b) c) = none := by
+  rw [register_fresh arena ref a habs, register_second arena ref a b hpb habs]
+  have h3abs : dget (pathKey arena c) (dset (pathKey arena a ++ arrow ++ settingsKey arena b) b
+        (dset (pathKey arena a ++ arrow ++ settingsKey arena a) a ref)) = none := by
+    rw [hpc, dget_dset_ne _ _ _ _ (suffixed_ne _ _), dget_dset_ne _ _ _ _ (suffixed_ne _ _), habs]
+  rw [register_fresh arena _ c h3abs, hpc]
+  refine ⟨dget_dset_self _ _ _, ?_⟩
+  rw [dget_dset_ne _ _ _ _ (Ne.symm (suffixed_ne _ _)), dget_dset_ne _ _ _ _ (suffixed_inj _ _ _ (Ne.symm hcb)),
+    dget_dset_ne _ _ _ _ (suffixed_inj _ _ _ (Ne.symm hca)), habs3]
+
+
+/-! ### concrete witnesses (kernel `decide`) and non-vacuity examples -/
+
+deriving instance DecidableEq for Except
+
+instance (k : Str) : Decidable (IsTok k) := inferInstanceAs (Decidable (k ≠ [] ∧ ∀ c ∈ k, isWs c = false))
+
+theorem refOk_of_all (st : St) (h : st.ref.all (fun kv => decide (kv.2 < st.arena.length)) = true) : RefOk st := by
+  intro k v hk
+  generalize st.ref = r at h hk
+  induction r with
+  | nil => simp [dget] at hk
+  | cons kv t ih =>
+    obtain ⟨k2, v2⟩ := kv
+    simp only [List.all_cons, Bool.and_eq_true, decide_eq_true_eq] at h
+    by_cases e : k2 = k
+    · simp [dget, e] at hk; omega
+    · simp only [dget, e, if_false] at hk
+      exact ih h.2 hk
+
+/-- the template `&MOTION / &MD / STEPS 10` -/
+def tplMD : Str := "&MOTION\n &MD\n  STEPS 10\n &END MD\n&END MOTION\n".toList
+
+/-- the state `read` + `set_parents` give for `tplMD` -/
+def stMD : St :=
+  { arena := [ { title := "MOTION".toList, parent := none, settings := [], data := [], children := [1], level := 0 },
+               { title := "MD".toList, parent := some 0, settings := [], data := ["STEPS 10".toList], children := [], level := 1 } ],
+    roots := [0],
+    ref := [("MOTION".toList, 0), ("MOTION->MD".toList, 1)] }
+
+example : (readText tplMD).map RS.toSt = .ok stMD := by decide
+
+def updSettings : Upd :=
+  { target := "MOTION->MD".toList, settings := ["X".toList], replace := false, data := [], isList := false }
+
+/-- COUNTEREXAMPLE (idempotence), text level: `{"MOTION->MD": {"settings": ["X"]}}` applied to the template and
+    then to its own output prints `&MD X` and then `&MD X X` (`node.settings += settings`). -/
+theorem cp2k_edit_idempotent_counterexample :
+    updateInput tplMD [updSettings] [] = .ok "&MOTION\n  &MD X\n    STEPS 10\n  &END MD\n&END MOTION\n".toList ∧
+    updateInput "&MOTION\n  &MD X\n    STEPS 10\n  &END MD\n&END MOTION\n".toList [updSettings] [] =
+      .ok "&MOTION\n  &MD X X\n    STEPS 10\n  &END MD\n&END MOTION\n".toList := by
+  constructor <;> decide
+
+/-- `stMD` after one application of `updSettings` -/
+def stMDX : St :=
+  { stMD with arena := [ { title := "MOTION".toList, parent := none, settings := [], data := [], children := [1], level := 0 },
+               { title := "MD".toList, parent := some 0, settings := ["X".toList], data := ["STEPS 10".toList], children := [], level := 1 } ] }
+
+/-- the unguarded idempotence statement is false (negation of `cp2k_edit_idempotent_partial` without `hg`) -/
+theorem cp2k_edit_idempotent_unguarded_false :
+    ¬ (∀ (u : Upd) (st st1 : St) (i : Nat), dget u.target st.ref = some i → updateNode u st = .ok st1 →
+        updateNode u st1 = .ok st1) := by
+  intro h
+  have h1 : updateNode updSettings stMD = .ok stMDX := by decide
+  have h2 := h updSettings stMD stMDX 1 (by decide) h1
+  revert h2
+  decide
+
+def updNone : Upd :=
+  { target := "MOTION->MD".toList, settings := [], replace := false, data := [("FOO".toList, none)], isList := false }
+
+/-- COUNTEREXAMPLE (idempotence, `None` value): the first application appends the bare key `FOO`, the second
+    one finds the key and rewrites the line to `FOO None`. -/
+theorem cp2k_edit_idempotent_none_counterexample :
+    updateInput tplMD [updNone] [] = .ok "&MOTION\n  &MD\n    STEPS 10\n    FOO\n  &END MD\n&END MOTION\n".toList ∧
+    updateInput "&MOTION\n  &MD\n    STEPS 10\n    FOO\n  &END MD\n&END MOTION\n".toList [updNone] [] =
+      .ok "&MOTION\n  &MD\n    STEPS 10\n    FOO None\n  &END MD\n&END MOTION\n".toList := by
+  constructor <;> decide
+
+def updEach : Upd :=
+  { target := "MOTION->PRINT->EACH".toList, settings := [], replace := false,
+    data := [("MD".toList, some "5".toList)], isList := false }
+
+/-- WITNESS (requested value lost): a target that does not exist is created with `list(data)`, i.e. with the
+    dict KEYS only — the requested `MD 5` is printed as `MD` (this is what `cp2k_edit_exact_absent` states in
+    general: `nn.data = u.data.map (·.1)`). -/
+theorem cp2k_new_section_drops_values_witness :
+    updateInput tplMD [updEach] [] =
+      .ok "&MOTION\n  &MD\n    STEPS 10\n  &END MD\n  &PRINT\n    &EACH\n      MD\n    &END EACH\n  &END PRINT\n&END MOTION\n".toList := by
+  decide
+
+/-- three same-titled siblings -/
+def tpl3 : Str := "&A\n&K X\n&END\n&K Y\n&END\n&K Z\n&END\n&END\n".toList
+
+def updZ : Upd :=
+  { target := "A->K->Z".toList, settings := [], replace := false, data := [("V".toList, some "9".toList)], isList := false }
+
+/-- COUNTEREXAMPLE (exactness with three duplicates): after `set_parents` the third `&K` is registered under the
+    bare path `A->K`, the key `A->K->Z` does not exist, and an update addressed to `A->K->Z` creates a new
+    section `&Z` inside `&K Z` instead of editing `&K Z`. -/
+theorem cp2k_three_duplicates_counterexample :
+    (readText tpl3).map (fun rs => rs.toSt.ref) =
+      .ok [("A".toList, 0), ("A->K->X".toList, 1), ("A->K->Y".toList, 2), ("A->K".toList, 3)] ∧
+    updateInput tpl3 [updZ] [] =
+      .ok "&A\n  &K X\n  &END K\n  &K Y\n  &END K\n  &K Z\n    &Z\n      V\n    &END Z\n  &END K\n&END A\n".toList := by
+  constructor <;> decide
+
+/-- WITNESS (removed children stay addressable): after `remove_node("MOTION")` the key `MOTION->MD` is still in
+    `node_ref`; a following `update_node("MOTION->MD", …)` succeeds on the detached node and the output is empty. -/
+theorem cp2k_removed_children_witness :
+    (removeNode "MOTION".toList stMD).map (fun st => (st.roots, st.ref)) = .ok ([], [("MOTION->MD".toList, 1)]) ∧
+    (match removeNode "MOTION".toList stMD with
+     | .ok st => (updateNode { updEach with target := "MOTION->MD".toList } st).map printText
+     | .error e => .error e) = .ok [] := by
+  constructor <;> decide
+
+/-! non-vacuity of the hypotheses of the general theorems -/
+
+def updMerge : Upd :=
+  { target := "MOTION->MD".toList, settings := [], replace := false,
+    data := [("STEPS".toList, some "20".toList), ("TIMESTEP".toList, some "0.5".toList)], isList := false }
+
+example : ∃ st', updateNode updMerge stMD = .ok st' ∧ st'.arena[1]? = some
+    { title := "MD".toList, parent := some 0, settings := [], data := ["STEPS 20".toList, "TIMESTEP 0.5".toList],
+      children := [], level := 1 } := by
+  obtain ⟨st', h, _, _, _, _, h5⟩ := cp2k_edit_exact_present updMerge stMD 1 _ (by decide) rfl (Or.inr ⟨rfl, by decide⟩)
+  exact ⟨st', h, by rw [h5]; decide⟩
+
+example : RefOk stMD ∧ dget updEach.target stMD.ref = none := ⟨refOk_of_all _ (by decide), by decide⟩
+
+example : DataOk updMerge.data := ⟨by decide, by decide, by decide⟩
+
+example : ∃ st1, updateNode updMerge stMD = .ok st1 ∧ updateNode updMerge st1 = .ok st1 := by
+  obtain ⟨st1, h1⟩ : ∃ st1, updateNode updMerge stMD = .ok st1 := ⟨_, rfl⟩
+  exact ⟨st1, h1, cp2k_edit_idempotent_partial updMerge stMD st1 1 (by decide) h1
+    (Or.inr ⟨rfl, rfl, ⟨by decide, by decide, by decide⟩⟩)⟩
+
+/-- the arena read from `tpl3`: nodes 1, 2, 3 are the three `&K`; hypotheses of `register_third_bare` hold -/
+def arena3 : List Node :=
+  [ { title := "A".toList, parent := none, settings := [], data := [], children := [1, 2, 3], level := 0 },
+    { title := "K".toList, parent := some 0, settings := ["X".toList], data := [], children := [], level := 1 },
+    { title := "K".toList, parent := some 0, settings := ["Y".toList], data := [], children := [], level := 1 },
+    { title := "K".toList, parent := some 0, settings := ["Z".toList], data := [], children := [], level := 1 } ]
+
+example : (readText tpl3).map (fun rs => rs.arena) = .ok arena3 := by decide
+
+example : pathKey arena3 2 = pathKey arena3 1 ∧ pathKey arena3 3 = pathKey arena3 1 ∧
+    dget (pathKey arena3 1) [("A".toList, 0)] = none ∧
+    dget (pathKey arena3 1 ++ arrow ++ settingsKey arena3 3) [("A".toList, 0)] = none ∧
+    settingsKey arena3 3 ≠ settingsKey arena3 1 ∧ settingsKey arena3 3 ≠ settingsKey arena3 2 := by decide
+
+example : (stMD.ref.map (·.1)).Nodup ∧ removeNode "MOTION->MD".toList stMD ≠ .ok stMD := by decide
+
+
+/-! ### tokens, strip and the header line -/
+
+theorem splitWsGo_tok_space (t rest : Str) (h : IsTok t) :
+    splitWsGo (t ++ ' ' :: rest) [] = t :: splitWsGo rest [] := by
+  obtain ⟨hne, hws⟩ := h
+  have hr : t.reverse ≠ [] := by simpa using hne
+  have hsp : isWs ' ' = true := by decide
+  rw [splitWsGo_tok_prefix t _ [] hws]
+  simp [splitWsGo, hsp, hr]
+
+theorem splitWsGo_tok_end (t : Str) (h : IsTok t) : splitWsGo t [] = [t] := by
+  obtain ⟨hne, hws⟩ := h
+  have hr : t.reverse ≠ [] := by simpa using hne
+  have := splitWsGo_tok_prefix t [] [] hws
+  simp at this
+  rw [this]; simp [splitWsGo, hr]
+
+/-- settings round trip: `" ".join(tokens).split() == tokens` for whitespace-free non-empty tokens -/
+theorem splitWs_join_toks (toks : List Str) (h : ∀ t ∈ toks, IsTok t) : splitWs (join [' '] toks) = toks := by
+  induction toks with
+  | nil => simp [join, splitWs, splitWsGo]
+  | cons a r ih =>
+    cases r with
+    | nil => simpa [join, splitWs] using splitWsGo_tok_end a (h a List.mem_cons_self)
+    | cons b r' =>
+      have ih' := ih (fun t ht => h t (List.mem_cons_of_mem _ ht))
+      simp only [join, splitWs, List.append_assoc, List.singleton_append] at ih' ⊢
+      rw [splitWsGo_tok_space a _ (h a List.mem_cons_self), ih']
+
+/-- the header of a section splits back into title and settings -/
+theorem splitWs_header (title : Str) (setts : List Str) (ht : IsTok title) (hs : ∀ t ∈ setts, IsTok t) :
+    splitWs (title ++ (if setts = [] then [] else ' ' :: join [' '] setts)) = title :: setts := by
+  by_cases he : setts = []
+  · subst he; simpa [splitWs] using splitWsGo_tok_end title ht
+  · simp only [he, if_false, splitWs]
+    rw [splitWsGo_tok_space title _ ht]
+    have := splitWs_join_toks setts hs
+    simp only [splitWs] at this
+    rw [this]
+
+
+theorem lstrip_of_head (s : Str) (hh : ∀ c, s.head? = some c → isWs c = false) : lstrip s = s := by
+  cases s with
+  | nil => rfl
+  | cons c t => simp [lstrip, List.dropWhile, hh c rfl]
+
+theorem lstrip_spaces (n : Nat) (s : Str) : lstrip (spaces n ++ s) = lstrip s := by
+  induction n with
+  | zero => simp [spaces]
+  | succ k ih =>
+    have hsp : isWs ' ' = true := by decide
+    simp only [spaces, List.replicate_succ, List.cons_append, lstrip, List.dropWhile, hsp] at ih ⊢
+    exact ih
+
+/-- `strip` undoes the indentation of a printed line whose content starts and ends with a non-blank -/
+theorem strip_indented (n : Nat) (s : Str) (hh : ∀ c, s.head? = some c → isWs c = false)
+    (hl : ∀ c, s.getLast? = some c → isWs c = false) : strip (spaces n ++ s) = s := by
+  unfold strip
+  rw [lstrip_spaces, lstrip_of_head s hh, lstrip_of_head s.reverse (by simpa [List.head?_reverse] using hl)]
+  simp
+
+/-! ### Theorem 1 (print / read round trip): what is proved
+
+Proved in general: the token-level facts the round trip rests on — `strip_indented` (indentation is undone),
+`splitWs_header` (a printed header `TITLE s₁ … sₙ` splits back into title and settings when they are
+whitespace-free non-empty tokens), `join_splitArrow`.  The structural induction over the section forest
+(`readLines (printLines forest) = forest`) is NOT proved; it is checked on a concrete forest below and, on every
+run, by the tie (predicate `print-read-roundtrip` on the real code, op `cp2kupdate` vs `cp2kstate` on the model). -/
+
+/-- concrete round trip (kernel-checked): reading the printed text of `stMD` gives `stMD` back -/
+example : (readText (printText stMD)).map RS.toSt = .ok stMD := by decide
+
+example : IsTok "MD".toList ∧ ∀ t ∈ ["X".toList, "OFF".toList], IsTok t := by decide
+
 end Infretis.Cp2k
